@@ -228,6 +228,10 @@ def signatures(tier, rng):
         if k not in PRIM:
             sigs.append(dict(params=[dict(k=k, ref=False)], ret=k, steal=True))
             sigs.append(dict(params=[dict(k=k, ref=False), dict(k="Z", ref=True)], ret=k, steal=True))
+    for k in KINDS:                                     # a by-value Zahl behind a non-primitive by-value parameter (the Zahl may come from another extern call)
+        if k not in PRIM:
+            sigs.append(dict(params=[dict(k=k, ref=False), dict(k="Z", ref=False)], ret="Z", steal=False))
+            sigs.append(dict(params=[dict(k=k, ref=False), dict(k="Z", ref=False), dict(k=k, ref=False)], ret="none", steal=False))
     pairs = list(itertools.product(pk, pk))
     if tier == "quick":
         pairs = rng.sample(pairs, 60)
@@ -328,12 +332,16 @@ def ddp_decl(name, sig, public):
     return [head, 'ist in "callee.c" definiert', "Und kann so benutzt werden:", '\t"%s"' % " ".join([name] + ["<p%d>" % (i + 1) for i in range(len(ps))]), ""]
 
 
-def ddp_case(k, name, sig, args, temps):
+def ddp_case(k, name, sig, args, temps, nest=None):
+    """nest = (parameter index, inner function name, inner signature, inner arguments): that Zahl argument is the result of another extern call"""
     body = []
     call = [name]
     for i, (p, v) in enumerate(zip(sig["params"], args)):
         kind = p["k"]
         body.append("%s %s v%d ist %s." % (TY[kind][1], TY[kind][0], i + 1, dlit(kind, v)))
+        if nest and nest[0] == i:
+            call.append("(" + " ".join([nest[1]] + [dlit(q["k"], w) for q, w in zip(nest[2]["params"], nest[3])]) + ")")
+            continue
         call.append(dlit(kind, v) if (temps and not p["ref"]) else "v%d" % (i + 1))
     call = " ".join(call)
     if sig["ret"] == "none":
@@ -540,6 +548,22 @@ def run(tier):
             if j > 0 and not s["params"]:
                 break
             cases.append((i, args, temps))
+    # an argument that is itself the result of an extern call: a by-value Zahl parameter behind a non-primitive by-value parameter gets
+    # `(ffi_j ...)` with non-primitive by-value arguments of its own (the copies made for the outer call are alive across the inner call)
+    inner = [j for j, t in enumerate(sigs) if t["ret"] == "Z" and not t["steal"] and t["params"] and not any(q["ref"] for q in t["params"]) and any(q["k"] not in PRIM for q in t["params"])]
+    nested = []
+    for i, s_ in enumerate(sigs):
+        ps = s_["params"]
+        pos = [n for n, q in enumerate(ps) if q["k"] == "Z" and not q["ref"] and any((not r["ref"]) and r["k"] not in PRIM for r in ps[:n])]
+        if pos and inner and not s_["steal"]:
+            nested.append((i, pos[0]))
+    for i, n in (nested if tier == "thorough" else rng.sample(nested, min(len(nested), 40))):
+        j = rng.choice(inner)
+        args = [rng.choice(VALUES[q["k"]]) for q in sigs[i]["params"]]
+        args[n] = int(KNOWN_PRIM["Z"])
+        cases.append((i, args, bool(rng.getrandbits(1)), (n, "ffi_%d" % j, sigs[j], [rng.choice(VALUES[q["k"]]) for q in sigs[j]["params"]], j)))
+    cases = [c if len(c) == 4 else c + (None,) for c in cases]
+    ck.cov["nested_extern_calls"] = sum(1 for c in cases if c[3])
     per = 40
     groups = [cases[a:a + per] for a in range(0, len(cases), per)]
     runner = ddp.Runner()
@@ -550,11 +574,11 @@ def run(tier):
 
     def one(gi_g):
         gi, g = gi_g
-        used = sorted(set(c[0] for c in g))
+        used = sorted(set(c[0] for c in g) | set(c[3][4] for c in g if c[3]))
         csrc = C_PRELUDE + "\n" + "\n".join("\n".join(c_callee("ffi_%d" % i, sigs[i], protos[i])) for i in used) + "\n"
         imported = gi % 2 == 1          # odd groups: the extern functions are declared in an imported module
         decls = sum((ddp_decl("ffi_%d" % i, sigs[i], imported) for i in used), [])
-        falls = sum((ddp_case(k, "ffi_%d" % c[0], sigs[c[0]], c[1], c[2]) for k, c in enumerate(g)), [])
+        falls = sum((ddp_case(k, "ffi_%d" % c[0], sigs[c[0]], c[1], c[2], c[3][:4] if c[3] else None) for k, c in enumerate(g)), [])
         if imported:
             files = {"ffilib.ddp": PRELUDE_TYPES + "\n" + "\n".join(decls) + "\n",
                      "m.ddp": 'Binde "Duden/Ausgabe" ein.\nBinde "ffilib" ein.\n\n' + PRELUDE_SHOW + "\n" + "\n".join(falls) + "\n"}
@@ -626,7 +650,10 @@ def run(tier):
                     ev["failed"], note = True, "exit %d %s" % (rr["code"], rr["err"][:200])
                 else:
                     try:
-                        ev["saw"], ev["res"], ev["after"] = observe(sig, rr["out"])
+                        text = rr["out"]
+                        if c[3] and "R " in text:      # the inner callee printed its own frame first: the outer frame starts at the last "P " before "R "
+                            text = text[text.rindex("P ", 0, text.index("R ")):]
+                        ev["saw"], ev["res"], ev["after"] = observe(sig, text)
                     except Garbled as e:
                         ev["failed"], note = True, "unreadable output (%s): %s" % (e, rr["out"][:300])
                 meta.append((c, o, gi, k, note, out["files"], rr["out"]))
